@@ -12,7 +12,10 @@ import (
 	"context"
 	"fmt"
 	"os"
+	"runtime"
 	"strings"
+	"sync"
+	"sync/atomic"
 	"testing"
 	"testing/synctest"
 	"time"
@@ -267,6 +270,61 @@ func (h reobsHarness) Exec(p *simkit.Program) *simkit.Result {
 				ch2 := make(chan *gossipv1.ObservationRequest, 1)
 				if err := common.PostObservationRequest(ch2, &gossipv1.ObservationRequest{ChainId: 2}); err != nil || len(ch2) != 1 {
 					violate("post-with-room-failed", "PostObservationRequest with room returned %v", err)
+				}
+				if raceBuild && !blocked {
+					// race-detector tier: several producers (processor cleanup, admin RPC) post at
+					// once while a single slot is free. Real parallelism decides who wins; whoever
+					// loses must be told "full" at once. A producer parked on the queue is seen when
+					// the bubble's clock can advance, i.e. when every goroutine is durably blocked.
+					prev := runtime.GOMAXPROCS(4)
+					capS := 1 + int(st.A%3)
+					chs := make(chan *gossipv1.ObservationRequest, capS)
+					for round := 0; round < 4000; round++ {
+						for len(chs) > capS-1 {
+							<-chs
+						}
+						for len(chs) < capS-1 {
+							chs <- &gossipv1.ObservationRequest{}
+						}
+						var wg sync.WaitGroup
+						var oks atomic.Int32
+						startC := make(chan struct{})
+						for g := 0; g < 3; g++ {
+							wg.Add(1)
+							go func() {
+								defer wg.Done()
+								<-startC
+								if common.PostObservationRequest(chs, &gossipv1.ObservationRequest{ChainId: 2}) == nil {
+									oks.Add(1)
+								}
+							}()
+						}
+						doneC := make(chan struct{})
+						go func() { wg.Wait(); close(doneC) }()
+						close(startC)
+						stalled := false
+						select {
+						case <-doneC:
+						case <-time.After(time.Second):
+							stalled = true
+							violate("concurrent-post-stalled", "with one free slot and three concurrent producers a PostObservationRequest call parked on the queue instead of returning (cap %d)", capS)
+							for k := 0; k < 3; k++ {
+								select {
+								case <-chs:
+								default:
+								}
+							}
+							<-doneC
+						}
+						if !stalled && (oks.Load() > 1 || len(chs) > capS) {
+							violate("concurrent-post-overfilled", "one free slot, %d posts accepted", oks.Load())
+						}
+						if stalled {
+							break
+						}
+					}
+					runtime.GOMAXPROCS(prev)
+					stats.Probe("concurrent-post-storm")
 				}
 				stats.Fault("outbound-queue-full")
 				log.Add("post cap=%d", capN)
